@@ -22,12 +22,12 @@ import (
 type c07shape struct {
 	name    string
 	text    string
-	finally bool // has a finally clause (a value outcome may be determined before the instant)
-	handler bool // a looping/sleeping body with a catch clause: under a deadline the handler must get to run
-	future  bool // needs the thread scheduler
-	depth   int  // try nesting depth
+	finally bool   // has a finally clause (a value outcome may be determined before the instant)
+	handler bool   // a looping/sleeping body with a catch clause: under a deadline the handler must get to run
+	future  bool   // needs the thread scheduler
+	depth   int    // try nesting depth
 	pre     string // evaluated first, in the same thread, under a context that never ends
-	finRuns bool // under a generous deadline the finally body must get to run (body or handler is quick)
+	finRuns bool   // under a generous deadline the finally body must get to run (body or handler is quick)
 }
 
 const c07Prelude = `(do
@@ -141,9 +141,9 @@ type c07obs struct {
 }
 
 type c07rig struct {
-	base  types.EnvType
-	trace []string
-	stamp []int64
+	base       types.EnvType
+	trace      []string
+	stamp      []int64
 	derefWaits int // derefs that reached their wait in this run (observed through the hook)
 }
 
@@ -426,9 +426,9 @@ func init() {
 		}
 		return &vf.Check{
 			ID: "C07", Level: "model_checking",
-			Rule: "every program shape is run on the real EVAL once uncancelled and then with cancellation / a deadline at every instant k (the k-th context poll; time, timers, sleeps and the 80/20 budget split of try run on a virtual clock through import-rewritten time/context); EVAL must return within B = 8 + 4 x (try depth) polls after the instant, never panic, return a timeout error (or the outcome already determined when the instant falls inside a finally body / after the last poll), produce no effect later than B polls after the instant, under a deadline let the handler of a timed-out body run, and a deadline beyond the program's completion leaves outcome and effects unchanged; every (shape, mode) case is non-trivial",
+			Rule:        "every program shape is run on the real EVAL once uncancelled and then with cancellation / a deadline at every instant k (the k-th context poll; time, timers, sleeps and the 80/20 budget split of try run on a virtual clock through import-rewritten time/context); EVAL must return within B = 8 + 4 x (try depth) polls after the instant, never panic, return a timeout error (or the outcome already determined when the instant falls inside a finally body / after the last poll), produce no effect later than B polls after the instant, under a deadline let the handler of a timed-out body run, and a deadline beyond the program's completion leaves outcome and effects unchanged; every (shape, mode) case is non-trivial",
 			Assumptions: []string{"promptness is counted in evaluator polls, not wall-clock time; a single long Go builtin is outside the model (as the property states)", "future shapes run under the thread scheduler with its default schedule"},
-			Families: []*vf.Family{fam},
+			Families:    []*vf.Family{fam},
 		}
 	})
 }
